@@ -234,8 +234,8 @@ def round_trip(W: int, ops: list[Any]) -> tuple[str, str]:
     return 'ok', text
 
 
-def s_entry(g0: int, g1: int, g2: int, l0: int, l1: int, l2: int) -> bool:
-    """post: _"""
+@rt.natively
+def _s_entry_body(g0: int, g1: int, g2: int, l0: int, l1: int, l2: int) -> bool:
     rt.begin()
     S = rt.SHARD
     W, nops = S['W'], S['nops']
@@ -271,3 +271,10 @@ def s_entry(g0: int, g1: int, g2: int, l0: int, l1: int, l2: int) -> bool:
             if r1[0] != 'ok':
                 return rt.fail('S:%s:%s' % ('+'.join(sorted(labels[i][0].split('#')[0] for i in sub)), r1[0]))
     return rt.fail('S:%s:%s' % ('+'.join(sorted(l.split('#')[0] for l, _ in labels)), res[0]))
+
+
+def s_entry(g0: int, g1: int, g2: int, l0: int, l1: int, l2: int) -> bool:
+    """post: _"""
+    return _s_entry_body(g0, g1, g2, l0, l1, l2)
+
+
